@@ -21,7 +21,7 @@ from harness.tlc import tla
 # TLC then finds AuxAreAux violated and the replay ('reform' jobs) decides on the real code.  Set to
 # True once split() allocates u with aux=True; the replay reports 'aux-flags' drift when the flag and
 # the code are out of step.
-FLAGS = dict(SplitAuxFixed=False)
+FLAGS = dict(SplitAuxFixed=True)
 
 IP_INVARIANTS = ['TypeOK', 'NodesWellFormed', 'SingleOwner', 'TowerExact', 'PadExact', 'SingleExact',
                  'CallerExact', 'AuxAreAuxOrKnown', 'Export']
